@@ -147,7 +147,7 @@ class C14(Check):
         "TCPLinesTransport / UnixLinesTransport, handle_client, UDSServerTransport.handle_request, RandomUDSServer": "real on SimNet",
     }
     shrink_lists = ["clients.0", "clients.1", "clients.2"]
-    quick_runs = 2400
+    quick_runs = 5000
     thorough_runs = 300000
     chunk = 40
 
